@@ -43,6 +43,7 @@ type Program struct {
 	initCtr  int64
 
 	loopInvs      map[string][]*LoopInv
+	loopSteps     map[string][]*LoopInv
 	summaries     map[string]*Summary
 	intrinsics    map[string]func(ex *Exec, f *Frame, call *ssa.Call, args []Value, reach *Term) (Value, *Term)
 	overlay       map[string][]byte
@@ -67,7 +68,7 @@ func LoadProgram(repoDir, contractsDir string) (*Program, error) {
 	P := &Program{spkgs: map[string]*ssa.Package{}, files: map[string]*ast.File{}, src: map[string][]byte{},
 		typeIDs: map[string]int{}, typeByID: []types.Type{nil}, funcIDs: map[*ssa.Function]int{}, funcByID: []*ssa.Function{nil},
 		globals: map[*ssa.Global]int64{}, fnInfo: map[*ssa.Function]*fnInfo{}, litObjs: map[string]StrV{}, litByRef: map[int64]string{},
-		interned: map[string]int{}, implMemo: map[string][]types.Type{}, loopInvs: map[string][]*LoopInv{}, summaries: map[string]*Summary{},
+		interned: map[string]int{}, implMemo: map[string][]types.Type{}, loopInvs: map[string][]*LoopInv{}, loopSteps: map[string][]*LoopInv{}, summaries: map[string]*Summary{},
 		overlay: map[string][]byte{}, repoDir: repoDir}
 	P.litCtr = litBase
 	P.intrinsics = intrinsicTable()
